@@ -121,6 +121,7 @@ def parseOp (ts : List String) : Option Op :=
   | ["setv", ps, qs] => do pure (.setV (← parsePathP ps) (← parsePathP qs))
   | ["app", ps, qs] => do pure (.app (← parsePathP ps) (← parsePathP qs))
   | "appl" :: ps :: lit => do pure (.appLit (← parsePathP ps) (← parseLit lit))
+  | ["setkey", ps, qs, n] => do pure (.setKey (← parsePathP ps) (← parsePathP qs) (← n.toNat?))
   | ["setcs", ps, qs, n] => do pure (.setCs (← parsePathP ps) (← parsePathP qs) (← n.toNat?))
   | ["setsub", ps, n] => do pure (.setSub (← parsePathP ps) (← n.toNat?))
   | ["resize", ps, n] => do pure (.resize (← parsePathP ps) (← n.toNat?))
@@ -144,7 +145,7 @@ def parseOp (ts : List String) : Option Op :=
   | _ => none
 
 def isMutName (s : String) : Bool :=
-  ["set", "setv", "setsub", "setcs", "app", "appl", "resize", "remat", "rem", "clear", "ext", "clone", "copy", "drop", "ctor"].contains s
+  ["set", "setv", "setsub", "setcs", "setkey", "app", "appl", "resize", "remat", "rem", "clear", "ext", "clone", "copy", "drop", "ctor"].contains s
 
 def cgetP (σ : State) (p : Nat × List Step) : Except Err V := cget σ { root := p.1, steps := p.2 }
 
